@@ -66,22 +66,23 @@ Exists(e) == e[2] # -1
 NewVer(e, ver) == IF ~Exists(e) THEN ver + 1 ELSE IF ver = -1 THEN e[2] + 1 ELSE ver + 1
 Refuses(e, ver) == Exists(e) /\ NewVer(e, ver) <= e[2]
 
-ApplySet(n, k, v, ver) ==      \* returns <<new store of n, accepted?>>
+ApplySet(n, k, v, ver) ==      \* returns <<new store of n, accepted?, answer: "ok" | "verr" | "error">>
   LET e == store[n][k] IN
-  IF Refuses(e, ver) THEN <<store[n], FALSE>>
-  ELSE <<[store[n] EXCEPT ![k] = <<v, NewVer(e, ver), TRUE>>], TRUE>>
+  IF Refuses(e, ver) THEN <<store[n], FALSE, "verr">>
+  ELSE <<[store[n] EXCEPT ![k] = <<v, NewVer(e, ver), TRUE>>], TRUE, "ok">>
 
-ApplyRemove(n, k) ==
-  LET e == store[n][k] IN
-  IF ~Exists(e) THEN store[n] ELSE [store[n] EXCEPT ![k] = <<"<Empty>", e[2] + 1, FALSE>>]
+(* no snapshot happens in this model, so every key is still `New': remove_value drops the entry *)
+(* (a key that reached the disk would become a tombstone with its version advanced)             *)
+ApplyRemove(n, k) == [store[n] EXCEPT ![k] = Absent]
 
-IsInt(v) == v \in {"0", "1", "2", "3", "4", "5", "6", "7", "8", "9"}
-ToInt(v) == CHOOSE i \in 0..9 : ToString(i) = v
-ApplyInc(n, k, d) ==            \* returns <<store, accepted?>>
+IntRange == -150..150
+IsInt(v) == \E i \in IntRange : ToString(i) = v
+ToInt(v) == CHOOSE i \in IntRange : ToString(i) = v
+ApplyInc(n, k, d) ==            \* returns <<store, accepted?, answer>>
   LET e == store[n][k] IN
-  IF e[3] /\ ~IsInt(e[1]) THEN <<store[n], FALSE>>
+  IF e[3] /\ ~IsInt(e[1]) THEN <<store[n], FALSE, "error">>          \* "Key is not numeric"
   ELSE LET old == IF e[3] THEN ToInt(e[1]) ELSE 0 IN
-       <<[store[n] EXCEPT ![k] = <<ToString(old + d), (IF Exists(e) THEN e[2] + 1 ELSE 1), TRUE>>], TRUE>>
+       <<[store[n] EXCEPT ![k] = <<ToString(old + d), (IF Exists(e) THEN e[2] + 1 ELSE 1), TRUE>>], TRUE, "ok">>
 
 Msg(kind, k, v, ver, d) == [kind |-> kind, k |-> k, v |-> v, ver |-> ver, d |-> d]
 Enq(n, m) == [replq EXCEPT ![n] = Append(@, m @@ [id |-> clock])]
@@ -89,11 +90,8 @@ Enq(n, m) == [replq EXCEPT ![n] = Append(@, m @@ [id |-> clock])]
 Step(s) == sched' = Append(sched, s)
 
 (* ---------------- client commands ---------------- *)
-Client ==
-  /\ next <= Len(Ops)
-  /\ LET o == Ops[next] n == o.node IN
-     /\ Step("client:" \o ToString(next - 1))
-     /\ next' = next + 1
+ClientOp(o) ==
+     LET n == o.node IN
      /\ clock' = clock + 1
      /\ sent' = [forward |-> 0, copy |-> 0, ack |-> 0]
      /\ UNCHANGED <<rsp, pend>>
@@ -120,6 +118,12 @@ Client ==
                     /\ replq' = Enq(n, Msg("replicate-increment", o.k, "", 0, o.n))
                     /\ UNCHANGED <<store, ghost>>
 
+Client ==
+  /\ next <= Len(Ops)
+  /\ Step("client:" \o ToString(next - 1))
+  /\ next' = next + 1
+  /\ ClientOp(Ops[next])
+
 (* ---------------- replication loop ---------------- *)
 Repl(n) ==
   /\ replq[n] # <<>>
@@ -136,7 +140,7 @@ Repl(n) ==
 (* ---------------- a request line reaches the peer ---------------- *)
 ApplyMsg(y, m) ==   \* returns <<store of y, accepted?>>
   CASE m.kind = "replicate" -> ApplySet(y, m.k, m.v, m.ver)
-    [] m.kind = "replicate-remove" -> <<ApplyRemove(y, m.k), TRUE>>
+    [] m.kind = "replicate-remove" -> <<ApplyRemove(y, m.k), TRUE, "ok">>
     [] m.kind = "replicate-increment" -> ApplyInc(y, m.k, m.d)
 
 Deliver(x, y) ==
@@ -149,7 +153,9 @@ Deliver(x, y) ==
         /\ store' = [store EXCEPT ![y] = r[1]]
         \* the session answers: ack (for rp), then ok / error -- the `ok' line is left out: the dialling
         \* side skips it without any effect (the simulator consumes it without a step of its own)
-        /\ rsp' = [rsp EXCEPT ![<<x, y>>] = @ \o (IF isrp THEN <<[ack |-> m.id, from |-> y]>> ELSE <<>>)]
+        \* an `error ...' answer travels back as a line the dialling side cannot parse (no effect)
+        /\ rsp' = [rsp EXCEPT ![<<x, y>>] = @ \o (IF isrp THEN <<[ack |-> m.id, from |-> y]>> ELSE <<>>)
+                                               \o (IF r[3] = "error" THEN <<[ack |-> -1, from |-> y]>> ELSE <<>>)]
         \* a successfully processed request is re-emitted to the receiver's replication queue
         /\ replq' = IF r[2] THEN Enq(y, [kind |-> m.kind, k |-> m.k, v |-> m.v, ver |-> m.ver, d |-> m.d]) ELSE replq
         /\ clock' = clock + 1
@@ -162,7 +168,7 @@ Reply(x, y) ==
   /\ Step("reply:" \o x \o ">" \o y)
   /\ LET a == Head(rsp[<<x, y>>]) IN
      /\ rsp' = [rsp EXCEPT ![<<x, y>>] = Tail(@)]
-     /\ IF a.ack # 0
+     /\ IF a.ack > 0
         THEN pend' = pend \ {<<a.ack, a.from>>} /\ sent' = [sent EXCEPT !.ack = @ + 1]
         ELSE UNCHANGED <<pend, sent>>
   /\ UNCHANGED <<store, replq, req, next, clock, ghost>>
